@@ -259,6 +259,19 @@ let c19_judge c obs =
      | L (A "h" :: A h :: _), _, _ -> "bad helper-panics helper=" ^ h
      | _ -> "bad negotiation") ^ " expected=" ^ to_string e
 
+(* ---------------- C03 ---------------- *)
+let c03_judge _c obs =
+  match obs with
+  | L [L (A "reqs" :: rs); L (A "solo" :: ss)] ->
+    let rec go i rs ss = match rs, ss with
+      | [], [] -> "ok"
+      | r :: rs', s :: ss' ->
+        if to_string r = to_string s then go (i + 1) rs' ss'
+        else "bad " ^ Rp.first_diff_field r s ^ "-under-interleaving request=" ^ string_of_int i ^ " got=" ^ to_string r ^ " solo=" ^ to_string s
+      | _ -> "bad request-count" in
+    go 0 rs ss
+  | _ -> "bad observation-shape"
+
 (* judge by spec equality: the observation must be exactly what the spec function yields *)
 let judge_eq spec c obs =
   let e = to_string (spec c) in
@@ -279,7 +292,7 @@ let rec model_of p = match p with
       | L (A "rp" :: _) -> (match Rp.model c with L [A "regpanic"] -> L [A "reg"; A "panic"] | _ -> L [A "reg"; A "ok"])
       | _ -> Rt.model "C13" c)
   | "C01" | "C06" -> Rt.model p
-  | "C02" | "C07" -> (fun _ -> L [A "judge-only"])
+  | "C02" | "C07" | "C03" -> (fun _ -> L [A "judge-only"])
   | p -> failwith ("no model for " ^ p)
 let judge_of = function
   | "C14" -> (fun c o -> match c with L (A "rt" :: _) -> Rt.c14r_judge c o | _ -> judge_eq c14_spec c o)
@@ -289,6 +302,7 @@ let judge_of = function
   | "C17" -> c17_judge
   | "C18" -> c18_judge
   | "C19" -> c19_judge
+  | "C03" -> c03_judge
   | "C16" -> C16.judge
   | "C15" -> C15.judge
   | "C12" -> Rp.c12_judge
